@@ -156,7 +156,7 @@ void byteswaps(Ctx& c)
     auto ref     = +[](Ctx&, V x) { return V(ref_byteswap(T(x))); };
     auto nt      = +[](V x) { return V(ref_byteswap(T(x))) != x; };
     sweep1(c, {"byteswap(x)", ti<T>(), "x", always1, [](V x) { return V(etl::byteswap(T(x))); }, ref, &cls_unary<T>, nt}, A);
-    if constexpr (std::is_unsigned_v<T> && sizeof(T) >= 2) {
+    if constexpr (std::is_same_v<T, u16> || std::is_same_v<T, u32> || std::is_same_v<T, u64>) { // its three overloads
         sweep1(c, {"detail::byteswap_fallback(x)", ti<T>(), "x", always1, [](V x) { return V(etl::detail::byteswap_fallback(T(x))); }, ref,
                       &cls_unary<T>, nt},
             A);
@@ -328,6 +328,15 @@ int main(int argc, char** argv)
     add_jobs<u16>(m);
     add_jobs<u32>(m);
     add_jobs<u64>(m);
+    m.job("unsigned-long-long", {"quick", "thorough"}, [](mc::Reporter& r) {
+        // a distinct type from uint64_t (= unsigned long) here
+        Ctx c(r);
+        unary_bits<unsigned long long>(c);
+        byteswaps<unsigned long long>(c);
+        byteswaps<long long>(c);
+        rotations<unsigned long long>(c);
+        bit_manip<unsigned long long>(c);
+    });
     m.job("byte-order", {"quick", "thorough"}, [](mc::Reporter& r) {
         Ctx c(r);
         byte_order<char>(c);
